@@ -103,6 +103,14 @@ func backSlice(v ssa.Value, visit func(ssa.Value) bool) {
 		case *ssa.Lookup:
 			walk(x.X, d+1)
 			walk(x.Index, d+1)
+			// values put into the same map in this function
+			if refs := x.X.Referrers(); refs != nil {
+				for _, r := range *refs {
+					if mu, ok := r.(*ssa.MapUpdate); ok && mu.Map == x.X {
+						walk(mu.Value, d+1)
+					}
+				}
+			}
 		case *ssa.Phi:
 			for _, e := range x.Edges {
 				walk(e, d+1)
